@@ -93,7 +93,9 @@ pub proof fn lemma_send_then_recv(k0: K, k1: K, tx: c_int, data: Seq<u8>, chans:
         assert(nonsocks(chans, k1.sock) + nonsocks(regions, k1.sock) =~= regions);
         assert(chans.push(ded).drop_last() =~= chans);
         assert((p.data + flat(k1.q[ded])).len() == data.len());
+        //@@CANARY
     }
+    //@@CANARY
 }
 
 // C02: a later send on ANY sender of ANY channel leaves a queued emission intact: it appends one packet
@@ -125,7 +127,9 @@ pub proof fn lemma_other_send_preserves_head(k1: K, k2: K, rx: c_int, tx2: c_int
         let ded = p.fds.last();
         assert(k1.q.dom().contains(ded));
         assert(k2.q[ded] == k1.q[ded]);
+        //@@CANARY
     }
+    //@@CANARY
 }
 '''
 
